@@ -74,7 +74,7 @@ type opRec struct {
 
 func TestC20Policies(t *testing.T) {
 	e := vrun.LoadEnv()
-	meta := vrun.Meta{Property: "C20", Workload: "TestC20Policies", Total: e.Pick(300, 6000),
+	meta := vrun.Meta{Property: "C20", Workload: "TestC20Policies", Total: e.Pick(300, 40000),
 		Rule: "each case draws a policy (none / size with threshold 0,1,64,1000 / immediate), 1-4 writers, 0-3 extra flusher goroutines, 8-47 operations per writer (Write of 0-4 points with payload sizes straddling the threshold, zero-length payloads, 1-5 data ids; Flush with contexts cancelled in 20% of some cases), optional State() sampler. Oracles: barrier (points of writes that returned before a nil Flush was called sit in chunks numbered <= the last issued number read right after the Flush; visible buffer empty after a quiescent Flush), policy 'none' transmits nothing before the first Flush/Close, single-writer histories: chunk boundaries equal a sequential reference model of the buffer, multi-writer: every over-threshold chunk must drop to <= threshold when one of its writes is removed and no write is split, immediate: one write per chunk, State(): sent+buffered <= points of writes started, == accepted after a quiescent Flush, no chunk without a data point group. non-trivial = >=3 chunks and >=1 nil Flush; distinct = scenario tuple x boundary signature",
 		Assumptions: []string{"'cut into a chunk with sequence number at most the last issued one' is observed as: the broker received the point in a chunk whose number is <= State().LastIssuedSequenceNumber read immediately after Flush returned (a later read can only be larger, so the check is sound)",
 			"the size-policy boundary model uses the sum of payload lengths, as documented for IsFlush"}}
@@ -521,7 +521,7 @@ type ivScenario struct {
 
 func TestC20Interval(t *testing.T) {
 	e := vrun.LoadEnv()
-	meta := vrun.Meta{Property: "C20", Workload: "TestC20Interval", Total: e.Pick(200, 3000),
+	meta := vrun.Meta{Property: "C20", Workload: "TestC20Interval", Total: e.Pick(200, 20000),
 		Rule:        "virtual time (testing/synctest bubble): policy interval or interval-or-size with interval 1ms..5s, 3-30 writes separated by gaps drawn around the interval (0, interval/3, interval-1ms, interval, interval+1ms, 3*interval); oracle: every accepted point is handed to the transport no later than one interval + 1 ms (virtual) after its write returned, and conservation holds at close; non-trivial = >=2 chunks cut by the ticker; distinct = (policy, interval, gap pattern signature)",
 		Assumptions: []string{"'sent' is judged at the transport boundary: the virtual time at which the library's transport Write of the chunk was recorded"}}
 	vrun.Loop(t, meta, 0, func(c *vrun.Case) vrun.Result {
